@@ -7,7 +7,8 @@ from absint import (
 )
 from domains import Lin, bits_dep_all, bits_const
 
-ISIZE_MAX = (1 << 63) - 1
+# strings, vectors and counters are shorter than 2^48 (no address space holds more): stated assumption
+ISIZE_MAX = (1 << 48) - 1
 # whether an iterator is exhausted depends on the iteration count: an implicit free variable of the loop
 ITER = frozenset({("iter", 0)})
 
@@ -169,9 +170,36 @@ def m_top(I, st, args, dest_ty, *r):
     return TopV(dest_ty, d)
 
 
+def regex_width(term):
+    """(min, max) length of the text of a regex terminal, from the regex itself (None if not analysable)"""
+    try:
+        import sre_parse
+    except ImportError:  # pragma: no cover
+        return None
+    m = re.match(r'^r#"(.*)"#$', term)
+    rx = m.group(1) if m else None
+    if rx is None:
+        if term.startswith('"') and term.endswith('"'):
+            n = len(term) - 2
+            return (n, n)
+        return None
+    rx = rx.replace("[[:ascii:]]", "[\\x00-\\x7f]").replace("[[:print:]]", "[ -~]")
+    try:
+        lo, hi = sre_parse.parse(rx).getwidth()
+        return (int(lo), int(hi))
+    except Exception:
+        return None
+
+
 def m_len(I, st, args, dest_ty, *r):
     d = _deps(I, st, args)
     v = _deref(I, st, args[0])
+    if v.kind == "top" and v.tag and v.tag[0] == "tok":
+        w = regex_width(v.tag[2])
+        if w is not None:
+            hi = min(w[1], ISIZE_MAX)
+            return IntV.top("usize", d, w[0], hi, exact=True)
+        return IntV.top("usize", d, 0, ISIZE_MAX, exact=False)
     if v.kind == "top" and v.tag and v.tag[0] == "strlen":
         lo, hi = v.tag[1]
         return IntV.top("usize", d, lo, hi, exact=True)
